@@ -121,8 +121,10 @@ class Cmp(Part):
         par, epc = ParetoDominance(), EpsilonDominance(eps)
         trace = []
 
-        def cmp_ev(kind, comp, i, j):
-            st, v = observe(comp.compare, list(vs[i]), list(vs[j]))
+        def cmp_ev(kind, comp, i, j, alias=False):
+            # alias: a vector compared with ITSELF, the very same list object (an archive offered one of its own members)
+            a = list(vs[i])
+            st, v = observe(comp.compare, a, a if alias else list(vs[j]))
             ev = {"ev": "cmp", "kind": kind, "p": ab[i], "q": ab[j], "v": -1, "exc": ""}
             if st == "exc":
                 ev["exc"] = v
@@ -136,6 +138,8 @@ class Cmp(Part):
         cmp_ev("eps", epc, 0, 1)
         cmp_ev("eps", epc, 1, 0)
         cmp_ev("eps", epc, 0, 0)
+        cmp_ev("pareto", par, 1, 1, alias=True)
+        cmp_ev("eps", epc, 1, 1, alias=True)
         # ONE epsilon comparator object lives through the whole check and meets vectors of every length (the default archive's comparator
         # does the same across the problems of a process)
         if not hasattr(type(self), "_shared_eps"):
